@@ -228,12 +228,16 @@ def storage_partition_py(repo: Repo) -> Optional[Dict[int, int]]:
         if unfolded:
             return None
         vals = set()
+        from .fold import replace_atoms as _ra
+
+        repl_w = by_name({}, {"nbytes": (w + 7) // 8, "nbits": w})
         for p in ok:
-            if p.done != "return" or p.ret is None or p.ret.const_value() is None:
+            rv = _ra(p.ret, repl_w).const_value() if p.ret is not None else None
+            if p.done != "return" or rv is None:
                 if p.done == "raise":
                     continue
                 return None
-            vals.add(p.ret.const_value())
+            vals.add(rv)
         if len(vals) != 1:
             return None
         table[w] = vals.pop()
